@@ -32,6 +32,69 @@ def callbacks_for(ctx: Ctx, cls: str) -> tuple[AV, AV] | None:
     return res
 
 
+def register_obligations(ctx: Ctx, col: Collector, RULE: str, sel: dict) -> None:
+    """Store-add and owner-add happen together for every parent kind the walker can produce (shared with C12.PAIRING)."""
+    repo = ctx.repo
+    # ------------------------------------------------------------------ REGISTER
+    parents = possible_parents(sel)
+    adders = {"classdef": ("add_class", "add_class"), "funcdef": ("add_function", ("add_function", "add_method", "add_constructor")), "enumdef": ("add_enum", "add_enum")}
+    for kind in ("classdef", "funcdef", "enumdef"):
+        lfi = repo.function(VISITOR, f"{VCLS}.leave_{kind}")
+        efi = repo.function(VISITOR, f"{VCLS}.enter_{kind}")
+        col.touched(lfi)
+        for p in parents[kind]:
+            if p in ("Constructor", "Function"):
+                continue
+            # does the matching enter handler provably raise for this parent?  (reported by C01.STACK, not here)
+            eit = ctx.interp(efi, inline={"_is_public", "is_internal"})
+            eouts = eit.run_function(efi, {"self": Sym("self"), "node": Sym("node")}, visitor_state((parent_obj("Module"), parent_obj(p)) if p != "Module" else (parent_obj("Module"),)))
+            if eouts and all(o.kind == "raise" for o in eouts):
+                col.ok(RULE, f"{VISITOR}::{VCLS}.leave_{kind}::parent={p}", repo.loc(VISITOR, efi.node),
+                       f"enter_{kind} raises {sorted({o.exc for o in eouts})} for a {p} parent (a crash, reported under C01.STACK; nothing is silently dropped)", nontrivial=False)
+                continue
+            stack = ((parent_obj("Module"),) if p != "Module" else ()) + (parent_obj(p), elem_obj(kind))
+            lit = ctx.interp(lfi)
+            louts = lit.run_function(lfi, {"self": Sym("self"), "_": Sym("node")}, visitor_state(stack))
+            store_add, owner_add = adders[kind]
+            probs = []
+            for o in louts:
+                if o.kind == "raise":
+                    probs.append(f"raises {o.exc}")
+                    continue
+                s_ok = any(e.kind == "call" and e.target == f"self.api.{store_add}" and e.args and isinstance(e.args[0], Obj) and e.args[0].get("id") == Sym("E.id") for e in o.effects)
+                own = [e for e in o.effects if e.kind == "call" and e.target.startswith("parent.") and e.target.split(".")[1] in (owner_add if isinstance(owner_add, tuple) else (owner_add,))
+                       and e.args and isinstance(e.args[0], Obj) and e.args[0].get("id") == Sym("E.id")]
+                if not s_ok or len(own) != 1:
+                    probs.append(f"store-add={s_ok}, owner-adds={len(own)}")
+            key = f"{VISITOR}::{VCLS}.leave_{kind}::parent={p}"
+            if probs or not louts:
+                col.bad(RULE, key, repo.loc(VISITOR, lfi.node), "; ".join(sorted(set(probs))) or "no path",
+                        f"a {kind[:-3]} whose parent is a {p} is not added to the API store and to exactly one owner ({sorted(set(probs))[0] if probs else 'no path'}): "
+                        f"it vanishes from the inventory and the stubs" + (" while its members are still registered" if kind == "enumdef" else ""))
+            else:
+                col.ok(RULE, key, repo.loc(VISITOR, lfi.node), f"{len(louts)} path(s): self.api.{store_add}(x) and parent.add_*(x) together")
+    # attributes and enum members
+    afi = repo.function(VISITOR, f"{VCLS}.leave_assignmentstmt")
+    col.touched(afi)
+    for p, grand, elem_cls, store in (("Class", None, "Attribute", "add_attribute"), ("Constructor", "Class", "Attribute", "add_attribute"), ("Enum", None, "EnumInstance", "add_enum_instance")):
+        elem = Obj(elem_cls, (("id", Sym("E.id")), ("name", Sym("E.name"))))
+        stack = (parent_obj("Module"),) + ((parent_obj(grand),) if grand else ()) + (parent_obj(p), ListV((elem,)))
+        outs = ctx.interp(afi).run_function(afi, {"self": Sym("self"), "_": Sym("node")}, visitor_state(stack))
+        probs = []
+        for o in outs:
+            if o.kind == "raise":
+                probs.append(f"raises {o.exc}")
+                continue
+            s_ok = any(e.kind == "call" and e.target == f"self.api.{store}" and e.args and e.args[0] == elem for e in o.effects)
+            own = [e for e in o.effects if e.kind == "call" and e.target.endswith(f".{store}") and not e.target.startswith("self.api") and e.args and e.args[0] == elem]
+            if not s_ok or len(own) != 1:
+                probs.append(f"store-add={s_ok}, owner-adds={len(own)}")
+        key = f"{VISITOR}::{VCLS}.leave_assignmentstmt::parent={p}"
+        (col.ok if not probs and outs else col.bad)(RULE, key, repo.loc(VISITOR, afi.node), "; ".join(sorted(set(probs))) or f"{len(outs)} path(s): store and owner add together",
+                                                    *([] if not probs and outs else [f"an {elem_cls} below a {p} is not registered with store and owner together"]))
+
+
+
 def check(ctx: Ctx, col: Collector, tier: str) -> None:
     repo = ctx.repo
     col.spec("C03.CHILD-KINDS", "nothing public is dropped: the walker descends into every declaration-bearing statement class at each container level",
@@ -129,63 +192,7 @@ def check(ctx: Ctx, col: Collector, tier: str) -> None:
                             f"for a {cls} the walker enters {pth}, which can be {'None' if c == 'NoneType' else 'a ' + c} according to mypy's declarations; the visitor has no "
                             f"handler for it, so the definition is silently dropped" + (" (overloads without implementation)" if c == "NoneType" else " (e.g. a property with a setter)" if c == "Decorator" else ""))
 
-    # ------------------------------------------------------------------ REGISTER
-    parents = possible_parents(sel)
-    adders = {"classdef": ("add_class", "add_class"), "funcdef": ("add_function", ("add_function", "add_method", "add_constructor")), "enumdef": ("add_enum", "add_enum")}
-    for kind in ("classdef", "funcdef", "enumdef"):
-        lfi = repo.function(VISITOR, f"{VCLS}.leave_{kind}")
-        efi = repo.function(VISITOR, f"{VCLS}.enter_{kind}")
-        col.touched(lfi)
-        for p in parents[kind]:
-            if p in ("Constructor", "Function"):
-                continue
-            # does the matching enter handler provably raise for this parent?  (reported by C01.STACK, not here)
-            eit = ctx.interp(efi, inline={"_is_public", "is_internal"})
-            eouts = eit.run_function(efi, {"self": Sym("self"), "node": Sym("node")}, visitor_state((parent_obj("Module"), parent_obj(p)) if p != "Module" else (parent_obj("Module"),)))
-            if eouts and all(o.kind == "raise" for o in eouts):
-                col.ok("C03.REGISTER", f"{VISITOR}::{VCLS}.leave_{kind}::parent={p}", repo.loc(VISITOR, efi.node),
-                       f"enter_{kind} raises {sorted({o.exc for o in eouts})} for a {p} parent (a crash, reported under C01.STACK; nothing is silently dropped)", nontrivial=False)
-                continue
-            stack = ((parent_obj("Module"),) if p != "Module" else ()) + (parent_obj(p), elem_obj(kind))
-            lit = ctx.interp(lfi)
-            louts = lit.run_function(lfi, {"self": Sym("self"), "_": Sym("node")}, visitor_state(stack))
-            store_add, owner_add = adders[kind]
-            probs = []
-            for o in louts:
-                if o.kind == "raise":
-                    probs.append(f"raises {o.exc}")
-                    continue
-                s_ok = any(e.kind == "call" and e.target == f"self.api.{store_add}" and e.args and isinstance(e.args[0], Obj) and e.args[0].get("id") == Sym("E.id") for e in o.effects)
-                own = [e for e in o.effects if e.kind == "call" and e.target.startswith("parent.") and e.target.split(".")[1] in (owner_add if isinstance(owner_add, tuple) else (owner_add,))
-                       and e.args and isinstance(e.args[0], Obj) and e.args[0].get("id") == Sym("E.id")]
-                if not s_ok or len(own) != 1:
-                    probs.append(f"store-add={s_ok}, owner-adds={len(own)}")
-            key = f"{VISITOR}::{VCLS}.leave_{kind}::parent={p}"
-            if probs or not louts:
-                col.bad("C03.REGISTER", key, repo.loc(VISITOR, lfi.node), "; ".join(sorted(set(probs))) or "no path",
-                        f"a {kind[:-3]} whose parent is a {p} is not added to the API store and to exactly one owner ({sorted(set(probs))[0] if probs else 'no path'}): "
-                        f"it vanishes from the inventory and the stubs" + (" while its members are still registered" if kind == "enumdef" else ""))
-            else:
-                col.ok("C03.REGISTER", key, repo.loc(VISITOR, lfi.node), f"{len(louts)} path(s): self.api.{store_add}(x) and parent.add_*(x) together")
-    # attributes and enum members
-    afi = repo.function(VISITOR, f"{VCLS}.leave_assignmentstmt")
-    col.touched(afi)
-    for p, grand, elem_cls, store in (("Class", None, "Attribute", "add_attribute"), ("Constructor", "Class", "Attribute", "add_attribute"), ("Enum", None, "EnumInstance", "add_enum_instance")):
-        elem = Obj(elem_cls, (("id", Sym("E.id")), ("name", Sym("E.name"))))
-        stack = (parent_obj("Module"),) + ((parent_obj(grand),) if grand else ()) + (parent_obj(p), ListV((elem,)))
-        outs = ctx.interp(afi).run_function(afi, {"self": Sym("self"), "_": Sym("node")}, visitor_state(stack))
-        probs = []
-        for o in outs:
-            if o.kind == "raise":
-                probs.append(f"raises {o.exc}")
-                continue
-            s_ok = any(e.kind == "call" and e.target == f"self.api.{store}" and e.args and e.args[0] == elem for e in o.effects)
-            own = [e for e in o.effects if e.kind == "call" and e.target.endswith(f".{store}") and not e.target.startswith("self.api") and e.args and e.args[0] == elem]
-            if not s_ok or len(own) != 1:
-                probs.append(f"store-add={s_ok}, owner-adds={len(own)}")
-        key = f"{VISITOR}::{VCLS}.leave_assignmentstmt::parent={p}"
-        (col.ok if not probs and outs else col.bad)("C03.REGISTER", key, repo.loc(VISITOR, afi.node), "; ".join(sorted(set(probs))) or f"{len(outs)} path(s): store and owner add together",
-                                                    *([] if not probs and outs else [f"an {elem_cls} below a {p} is not registered with store and owner together"]))
+    register_obligations(ctx, col, "C03.REGISTER", sel)
 
     # ------------------------------------------------------------------ ATTR-TARGETS
     col.spec("C03.ATTR-TARGETS", "class attributes and constructor-assigned instance attributes are collected for every assignment-target form",
